@@ -10,6 +10,7 @@ import gen_cube as G
 
 ID = "C04"
 LEAN_MODULES = ["CatiiProps.C04"]
+USES_TRANSLATOR = ['missing_rule']   # Gen/MissingGen.lean: the output_is_missing expressions of every reduce (tools/translate_missing.py)
 RULE = ("cases of C03 (dyadic stream; every fifth case arbitrary doubles, where rounding residues of the differencing must "
         "not change the missing set; every second case passes the SAME fact/weights objects to all calls) x every aggregate x both cube types x return_missing_as in {NaN, (0,False), "
         "(-1,False), (0.5,False), plain 0}; checked: the per-cell missing rule against a direct computation over the "
